@@ -20,6 +20,7 @@ PRE = r'''
 #include <set>
 #include <cstdio>
 #include <boost/graph/adjacency_list.hpp>
+#include <boost/iterator/function_output_iterator.hpp>
 namespace {
 #ifdef VERIF_SNIPPET_INT_WEIGHTS
 typedef boost::adjacency_list<boost::vecS, boost::vecS, boost::undirectedS, boost::no_property, boost::property<boost::edge_weight_t, int> > vg_t;
@@ -114,13 +115,33 @@ SNIP = {
     "parmcb/parmcb_sva_trees.hpp": r'''
     vg_t g = vmk(); std::list<std::list<ve_t> > c; return parmcb::mcb_sva_fvs_trees(g, boost::get(boost::edge_weight, g), std::back_inserter(c)) + parmcb::mcb_sva_iso_trees_tbb(g, boost::get(boost::edge_weight, g), std::back_inserter(c));''',
     "parmcb/parmcb_approx_sva_signed.hpp": r'''
-    vg_t g = vmk(); std::list<std::list<ve_t> > c; return parmcb::approx_mcb_sva_signed(g, boost::get(boost::edge_weight, g), 2, std::back_inserter(c));''',
+    vg_t g = vmk(); std::list<std::list<ve_t> > c;
+    std::vector<std::list<ve_t> > cv; double tv = 0; std::size_t cnt = 0; auto sink = [&cnt](const std::list<ve_t> &) { cnt++; };
+    tv += parmcb::approx_mcb_sva_signed(g, boost::get(boost::edge_weight, g), 2, std::back_inserter(cv));
+    tv += parmcb::approx_mcb_sva_signed(g, boost::get(boost::edge_weight, g), 2, boost::make_function_output_iterator(sink));
+    (void) tv; return parmcb::approx_mcb_sva_signed(g, boost::get(boost::edge_weight, g), 2, std::back_inserter(c));''',
     "parmcb/parmcb_approx_sva_signed_tbb.hpp": r'''
-    vg_t g = vmk(); std::list<std::list<ve_t> > c; return parmcb::approx_mcb_sva_signed_tbb(g, boost::get(boost::edge_weight, g), 2, std::back_inserter(c));''',
+    vg_t g = vmk(); std::list<std::list<ve_t> > c;
+    std::vector<std::list<ve_t> > cv; double tv = 0; std::size_t cnt = 0; auto sink = [&cnt](const std::list<ve_t> &) { cnt++; };
+    tv += parmcb::approx_mcb_sva_signed_tbb(g, boost::get(boost::edge_weight, g), 2, std::back_inserter(cv));
+    tv += parmcb::approx_mcb_sva_signed_tbb(g, boost::get(boost::edge_weight, g), 2, boost::make_function_output_iterator(sink));
+    (void) tv; return parmcb::approx_mcb_sva_signed_tbb(g, boost::get(boost::edge_weight, g), 2, std::back_inserter(c));''',
     "parmcb/parmcb_approx_sva_trees.hpp": r'''
-    vg_t g = vmk(); std::list<std::list<ve_t> > c; return parmcb::approx_mcb_sva_fvs_trees(g, boost::get(boost::edge_weight, g), 2, std::back_inserter(c)) + parmcb::approx_mcb_sva_iso_trees(g, boost::get(boost::edge_weight, g), 2, std::back_inserter(c));''',
+    vg_t g = vmk(); std::list<std::list<ve_t> > c;
+    std::vector<std::list<ve_t> > cv; double tv = 0; std::size_t cnt = 0; auto sink = [&cnt](const std::list<ve_t> &) { cnt++; };
+    tv += parmcb::approx_mcb_sva_fvs_trees(g, boost::get(boost::edge_weight, g), 2, std::back_inserter(cv));
+    tv += parmcb::approx_mcb_sva_fvs_trees(g, boost::get(boost::edge_weight, g), 2, boost::make_function_output_iterator(sink));
+    tv += parmcb::approx_mcb_sva_iso_trees(g, boost::get(boost::edge_weight, g), 2, std::back_inserter(cv));
+    tv += parmcb::approx_mcb_sva_iso_trees(g, boost::get(boost::edge_weight, g), 2, boost::make_function_output_iterator(sink));
+    (void) tv; return parmcb::approx_mcb_sva_fvs_trees(g, boost::get(boost::edge_weight, g), 2, std::back_inserter(c)) + parmcb::approx_mcb_sva_iso_trees(g, boost::get(boost::edge_weight, g), 2, std::back_inserter(c));''',
     "parmcb/parmcb_approx_sva_trees_tbb.hpp": r'''
-    vg_t g = vmk(); std::list<std::list<ve_t> > c; return parmcb::approx_mcb_sva_fvs_trees_tbb(g, boost::get(boost::edge_weight, g), 2, std::back_inserter(c)) + parmcb::approx_mcb_sva_iso_trees_tbb(g, boost::get(boost::edge_weight, g), 2, std::back_inserter(c));''',
+    vg_t g = vmk(); std::list<std::list<ve_t> > c;
+    std::vector<std::list<ve_t> > cv; double tv = 0; std::size_t cnt = 0; auto sink = [&cnt](const std::list<ve_t> &) { cnt++; };
+    tv += parmcb::approx_mcb_sva_fvs_trees_tbb(g, boost::get(boost::edge_weight, g), 2, std::back_inserter(cv));
+    tv += parmcb::approx_mcb_sva_fvs_trees_tbb(g, boost::get(boost::edge_weight, g), 2, boost::make_function_output_iterator(sink));
+    tv += parmcb::approx_mcb_sva_iso_trees_tbb(g, boost::get(boost::edge_weight, g), 2, std::back_inserter(cv));
+    tv += parmcb::approx_mcb_sva_iso_trees_tbb(g, boost::get(boost::edge_weight, g), 2, boost::make_function_output_iterator(sink));
+    (void) tv; return parmcb::approx_mcb_sva_fvs_trees_tbb(g, boost::get(boost::edge_weight, g), 2, std::back_inserter(c)) + parmcb::approx_mcb_sva_iso_trees_tbb(g, boost::get(boost::edge_weight, g), 2, std::back_inserter(c));''',
 }
 # headers whose snippet only makes sense when TBB is configured
 NEEDS_TBB_HEADER = {"parmcb/parmcb_sva_signed_tbb.hpp", "parmcb/parmcb_approx_sva_signed_tbb.hpp", "parmcb/parmcb_approx_sva_trees_tbb.hpp",
@@ -155,9 +176,9 @@ class Builder:
         self.repo, self.workdir = repo, workdir
         os.makedirs(workdir, exist_ok=True)
         self.inc = {}
-        for cfg in ("on", "off"):
+        for cfg in ("on", "off", "log"):
             d = os.path.join(workdir, "inc-" + cfg)
-            gen_config(d, tbb=(cfg == "on"), mpi=(cfg == "on"))
+            gen_config(d, tbb=(cfg != "off"), mpi=(cfg != "off"), logging=(cfg == "log"))
             self.inc[cfg] = d
         self.cache = {}
         self.compiles = 0
